@@ -98,6 +98,14 @@ func checkC02(cc *CheckCtx, r *Report) {
 	r.Bounds = append(r.Bounds, boundsValidate...)
 	r.Outside = append(r.Outside, "2020-12-only keywords inside a draft-07 document; remote documents that declare a different draft than the root")
 	cc.RunValidateFamily(r, skels, VOptions{ValidatePaths: true})
+	// (b) the $schema switch: Resolve and Validate run in the engine on Schema{Schema: v}, v a symbolic byte string
+	var cases []*KernelCase
+	maxL := 48
+	for n := 0; n <= maxL; n++ {
+		cases = append(cases, &KernelCase{Name: fmt.Sprintf("schema-version.len%d", n), Func: "VerifKernelSchemaVersion", Native: jsonschema.VerifKernelSchemaVersion, Args: []ArgSpec{strArg(n, "")}})
+	}
+	cc.RunKernels(r, cases)
+	r.Bounds = append(r.Bounds, "$schema switch: v = every byte string (bytes 0..127) of length 0..48; the real Resolve (checkStructure, checkLocal, resolveURIs, resolveRefs) and Validate run in the engine on Schema{Schema: v}: Validate reaches the evaluator exactly for \"\" and the three supported URIs, and the draft is 07 exactly for the two draft-07 spellings")
 }
 
 func checkC03(cc *CheckCtx, r *Report) {
